@@ -114,6 +114,7 @@ func (d *Driver) judge() {
 	if d.maxDepth > 0 {
 		d.h.violate("C13", "unbounded-recursion", fmt.Sprintf("stack depth %d frames at a store operation", d.maxDepth), 0, 0)
 	}
+	d.judgeLockOrder()
 	if p.judges("C01") {
 		d.judgeC01()
 	}
@@ -358,6 +359,83 @@ func (d *Driver) judgeC02() {
 			}
 			d.h.violate("C02", fmt.Sprintf("claim-not-backed/%s/%s/rise-by:%s", what, cause, t.StartStack),
 				fmt.Sprintf("i%d.%d claims leadership (term from %v, token %s) but at %v the group's record is: %s", t.Inst, t.Gen, t.Start, short(t.Token), cur, what), cur, 0)
+		}
+	}
+}
+
+// judgeLockOrder: the nesting order of the library's mutexes observed in this run must be
+// acyclic (C09, C11, C13: "never deadlocks", whatever the timing). Two locks taken in both orders
+// by different code paths deadlock under some schedule even if this run's schedule was harmless.
+func (d *Driver) judgeLockOrder() {
+	if len(d.lockEdges) == 0 {
+		return
+	}
+	var props []string
+	for _, id := range []string{"C09", "C11", "C13"} {
+		if d.plan.judges(id) {
+			props = append(props, id)
+		}
+	}
+	if len(props) == 0 {
+		return
+	}
+	adj := map[string][]string{}
+	for k := range d.lockEdges {
+		adj[k[0]] = append(adj[k[0]], k[1])
+	}
+	for _, v := range adj {
+		sort.Strings(v)
+	}
+	var keys [][2]string
+	for k := range d.lockEdges {
+		keys = append(keys, k)
+	}
+	sort.Slice(keys, func(i, j int) bool { return keys[i][0]+"|"+keys[i][1] < keys[j][0]+"|"+keys[j][1] })
+	reported := map[string]bool{}
+	for _, k := range keys {
+		// path from k[1] back to k[0]?
+		seen := map[string]bool{}
+		var path []string
+		var dfs func(x string) bool
+		dfs = func(x string) bool {
+			if x == k[0] {
+				return true
+			}
+			if seen[x] {
+				return false
+			}
+			seen[x] = true
+			for _, y := range adj[x] {
+				if dfs(y) {
+					path = append([]string{y}, path...)
+					return true
+				}
+			}
+			return false
+		}
+		if !dfs(k[1]) {
+			continue
+		}
+		cyc := append([]string{k[0], k[1]}, path...)
+		// canonical name: rotate to the smallest element
+		nodes := cyc[:len(cyc)-1]
+		m := 0
+		for i := range nodes {
+			if nodes[i] < nodes[m] {
+				m = i
+			}
+		}
+		name := strings.Join(append(append([]string{}, nodes[m:]...), nodes[:m]...), "->")
+		if reported[name] {
+			continue
+		}
+		reported[name] = true
+		detail := fmt.Sprintf("locks nested in both orders: %s held while taking %s in %s", k[0], k[1], d.lockEdges[k])
+		for i := 1; i+1 < len(cyc); i++ {
+			detail += fmt.Sprintf("; %s held while taking %s in %s", cyc[i], cyc[i+1], d.lockEdges[[2]string{cyc[i], cyc[i+1]}])
+		}
+		for _, p := range props {
+			d.h.violate(p, "lock-order-cycle/"+name, detail, d.lastNow, d.step)
 		}
 	}
 }
